@@ -4,7 +4,8 @@
    (jitter buffer), Proof/StatsShiftP.v (receiver statistics). *)
 From Coq Require Import ZArith List Bool.
 From AV Require Import Gen.Utils Gen.SctpConst Model.SctpRecv Proof.SerialP Proof.SctpC01P Proof.SctpShiftP.
-From AV Require Model.SctpTx Proof.SctpTxShiftP Proof.SctpSsnShiftP.
+From AV Require Model.SctpTx Model.SctpSend Proof.SctpTxShiftP Proof.SctpSsnShiftP Proof.SctpSendSsnP.
+From AV Require Model.RtpRecv Proof.NackShiftP Model.RtpSend Proof.RtpHistShiftP Lib.RtpX.
 From AV Require Model.Jitter Model.Stats Proof.JitterP Proof.JitterInvP Proof.JitterShiftP Proof.StatsRunP Proof.StatsShiftP.
 Import ListNotations.
 Local Open Scope Z_scope.
@@ -96,6 +97,23 @@ Theorem C17_sctp_ssn_shift : forall e base x ids es,
 Proof. exact SN.ssn_origin_independent. Qed.
 Print Assumptions C17_sctp_ssn_shift.
 
+(* 2d. ... and the SENDER's stream sequence counters (_outbound_stream_seq), end to end.  Two
+   senders whose counters for the streams `ids` differ by ANY delta e (mod 2^16; e.g. one just
+   below the 16-bit wrap, one at 0), ANY list of ordered messages on those streams, ANY network
+   behaviour (the chunks at positions idxs of what was sent arrive, in that order: any loss,
+   duplication, reordering), two receivers whose streams expect x resp. x + e: the receivers
+   deliver the same messages and send the same SACKs at every step.  (The fragmentation itself:
+   same TSNs, flags and payloads, every ordered chunk's SSN shifted by e - first conjunct.) *)
+Module SE := AV.Proof.SctpSendSsnP. Module SD := AV.Model.SctpSend.
+Theorem C17_sctp_sender_ssn_origin : forall e ids ms s1 s2 base x idxs,
+  SE.rel e (fun st => In st ids) s1 s2 ->
+  Forall (fun m => In (SD.o_sid m) ids /\ SD.o_ordered m = true) ms -> in16 x ->
+  SD.send_msgs s2 ms = map (map (SN.shc e)) (SD.send_msgs s1 ms) /\
+  snd (rrun (SN.rinit_ssn base (SN.sh16 e x) ids) (map EvData (SE.pick (concat (SD.send_msgs s2 ms)) idxs))) =
+  snd (rrun (SN.rinit_ssn base x ids) (map EvData (SE.pick (concat (SD.send_msgs s1 ms)) idxs))).
+Proof. exact SE.sender_ssn_origin. Qed.
+Print Assumptions C17_sctp_sender_ssn_origin.
+
 (* 3. Jitter buffer: shifting every RTP sequence number by any delta (mod 2^16) yields
    identical PLI flags and released frames; shifting every timestamp (mod 2^32) only
    shifts the released frames' timestamps. *)
@@ -127,12 +145,71 @@ Theorem C17_stats_shift : forall S rs d16 d32 evs,
 Proof. exact SS.shift_main. Qed.
 Print Assumptions C17_stats_shift.
 
-(* PARTIAL: the corresponding statements for the SCTP sender (TSN comparisons in SACK
-   processing), the NACK generator and the RTP retransmission history are not yet
-   theorems; they are covered by the metamorphic oracle of this check, which re-runs
+(* 5. Loss detection (NackGenerator of the RTP receiver): for ANY list of 16-bit sequence
+   numbers handed to add() and ANY delta e, the generator fed the numbers shifted by e (mod 2^16)
+   returns the same `missed` verdict at every step and its state - highest number seen, set of
+   missing packets - is the unshifted one shifted by e; it runs out of fuel on neither or both. *)
+Module NK := AV.Proof.NackShiftP. Module RR := AV.Model.RtpRecv.
+Theorem C17_nack_generator_shift : forall e l, Forall in16 l ->
+  RR.nack_trace RR.nack_init (map (SN.sh16 e) l) =
+  (map (fun p => (fst p, NK.shg e (snd p))) (fst (RR.nack_trace RR.nack_init l)), snd (RR.nack_trace RR.nack_init l)).
+Proof. exact NK.nack_origin_independent. Qed.
+Print Assumptions C17_nack_generator_shift.
+
+(* 6. Retransmission history of the RTP sender (__rtp_history, a dictionary keyed by
+   sequence_number % 128; _retransmit; the NACK branch of _handle_rtcp_packet).  For ANY sender
+   that starts with an empty history at ANY 16-bit sequence number, ANY list of frames and NACKs
+   (16-bit sequence numbers) and ANY delta d: the sender started d later (mod 2^16), given the
+   same frames and the NACKs shifted by d, sends the same media packets with sequence numbers
+   shifted by d and answers every NACK with the same retransmissions - the same packets shifted
+   when RTX is off, RTX packets carrying the shifted original sequence number (same RTX sequence
+   numbers) when it is on; it fails (struct.error) on neither or both; its history is the
+   unshifted one with packets shifted and slots rotated by d. *)
+Module HS := AV.Proof.RtpHistShiftP. Module RS := AV.Model.RtpSend.
+Theorem C17_rtp_history_shift : forall d s ops,
+  in16 (RS.s_seq s) -> RS.s_hist s = [] -> Forall HS.opok ops ->
+  RS.run (HS.shs d s) (map (HS.shop d) ops) = HS.rmap (HS.shrun d (HS.is_rtx s)) (RS.run s ops).
+Proof. exact HS.history_origin_independent. Qed.
+Print Assumptions C17_rtp_history_shift.
+
+(* PARTIAL: the corresponding statement for the reconfiguration sequence numbers is not a theorem; they are covered by the metamorphic oracle of this check, which re-runs
    the real implementation with shifted origins (two-endpoint SCTP schedules with TSN
    origins at 0 / just below 2^32 / 2^31, NackGenerator, StreamStatistics,
    JitterBuffer) and compares the observable behaviour. *)
+
+(* non-vacuity of 2d: counters 65535 vs 3 on stream 1 (e = 4), two ordered messages, the second
+   chunk arrives first and once more at the end *)
+Example C17_sender_ssn_example :
+  let s1 := SD.mkS 10 [(1, 65535)] in let s2 := SD.mkS 10 [(1, 3)] in
+  let ms := [SD.mkOut 1 true 53 [1; 2]; SD.mkOut 1 true 53 [3]] in
+  SE.rel 4 (fun st => In st [1]) s1 s2 /\
+  map (map sseq) (SD.send_msgs s1 ms) = [[65535]; [0]] /\ map (map sseq) (SD.send_msgs s2 ms) = [[3]; [4]] /\
+  snd (rrun (SN.rinit_ssn 9 65535 [1]) (map EvData (SE.pick (concat (SD.send_msgs s1 ms)) [1; 0; 1]%nat))) =
+  snd (rrun (SN.rinit_ssn 9 3 [1]) (map EvData (SE.pick (concat (SD.send_msgs s2 ms)) [1; 0; 1]%nat))).
+Proof.
+  split; [split; [reflexivity|]|vm_compute; repeat split].
+  intros st [<-|[]]. vm_compute. repeat split; discriminate.
+Qed.
+
+(* non-vacuity of 5: 65533, 65535 (65534 missed), 1 (0 missed), late 65534 *)
+Example C17_nack_example :
+  map (fun p => (fst p, RR.missing (snd p))) (fst (RR.nack_trace RR.nack_init [65533; 65535; 1; 65534])) =
+    [(false, []); (true, [65534]); (true, [0; 65534]); (false, [0])] /\
+  map (fun p => (fst p, RR.missing (snd p))) (fst (RR.nack_trace RR.nack_init (map (SN.sh16 5) [65533; 65535; 1; 65534]))) =
+    [(false, []); (true, [3]); (true, [5; 3]); (false, [5])].
+Proof. vm_compute. split; reflexivity. Qed.
+
+(* non-vacuity of 6: RTX on, the counter at 65535 resp. 3 (d = 4): two packets, a NACK for both and
+   for one never sent; the RTX payloads start with 0xFFFF / 0x0000 resp. 0x0003 / 0x0004 *)
+Example C17_history_example :
+  let s0 q := RS.mkSender 96 11 22 (Some 97) None q 0 500 [] in
+  let f := RS.mkEframe 1000 None [([1], 0); ([2], 0)] in
+  let pay r := match r with
+               | AV.Lib.RtpX.Ok (_, outs) => map (fun o => match o with RS.Sent l | RS.Resent l => map (fun p => (AV.Model.Rtp.sequence_number p, AV.Model.Rtp.payload p)) l end) outs
+               | _ => [] end in
+  pay (RS.run (s0 65535) [RS.Frame f; RS.Nack [65535; 0; 77]]) = [[(65535, [1]); (0, [2])]; [(500, [255; 255; 1]); (501, [0; 0; 2])]] /\
+  pay (RS.run (HS.shs 4 (s0 65535)) (map (HS.shop 4) [RS.Frame f; RS.Nack [65535; 0; 77]])) = [[(3, [1]); (4, [2])]; [(500, [0; 3; 1]); (501, [0; 4; 2])]].
+Proof. vm_compute. split; reflexivity. Qed.
 
 Example C17_example :
   let c t f l := mkChunk t 1 0 false f l 53 [7] in
